@@ -79,7 +79,7 @@ def confirm_case(driver, family, c, o, keys, by_id=None):
         return c
     if o.get("crash") and by_id is not None:
         window = [dict(by_id[i]) for i in o.get("prev", []) if i in by_id] + [dict(c)]
-        res = core.run_driver(driver, family, [dict(w) for w in window], nproc=1)
+        res = core.run_driver(driver, family, [dict(w) for w in window], nproc=1, record=False)
         if any(r.get("crash") for r in res.values()):
             return {"id": str(c["id"]), "window": window}
     # state kept inside the PROCESS by earlier cases (package-level caches ...): the observation depends on what the same driver
@@ -106,7 +106,7 @@ def run_one(driver, family, c):
     c = dict(c)
     pre = c.pop("_prefix", None) or []
     extra = {k: c.pop(k) for k in list(c) if k in ("inst", "mode", "only", "props")}   # judge-side annotations, not driver input
-    res = core.run_driver(driver, family, [{k: v for k, v in dict(x).items() if k not in ("inst", "mode", "only", "props")} for x in pre] + [c], nproc=1)
+    res = core.run_driver(driver, family, [{k: v for k, v in dict(x).items() if k not in ("inst", "mode", "only", "props")} for x in pre] + [c], nproc=1, record=False)
     return res[str(c["id"])]
 
 
@@ -298,8 +298,9 @@ def rule_text(r):
 def dl_text(kind, c):
     if kind == "join":
         return "join body=[%s] facts=[%s]" % (", ".join(atom_text(a) for a in c["body"]), ", ".join(atom_text(a) for a in c["facts"]))
-    return "run facts=[%s] rules=[%s] maxFacts=%s maxIter=%s" % (
-        ", ".join(atom_text(a) for a in c["facts"]), "; ".join(rule_text(r) for r in c["rules"]), c["mf"], c["mi"])
+    return "run facts=[%s] rules=[%s]%s maxFacts=%s maxIter=%s" % (
+        ", ".join(atom_text(a) for a in c["facts"]), "; ".join(rule_text(r) for r in c["rules"]),
+        (" queries=[%s]" % "; ".join(rule_text(r) for r in c["queries"])) if c.get("queries") else "", c["mf"], c["mi"])
 
 
 def dl_report(run, driver, kind, c, o, why, by_id=None):
